@@ -849,6 +849,7 @@ FIXED.append(
             {"name": "Block", "parent": "Stmt", "fields": [["body", ["union", ["ann", ["list", ["ref", "Stmt"]], ["ListSizeBetween", 1, 2]], ["ref", "Stmt"]]]]},
             {"name": "Both", "parent": "Stmt", "fields": [["p", ["union", ["tuple", ["ref", "Skip"], ["ref", "Stmt"]], ["ref", "Skip"]]]]},
             {"name": "Many", "parent": "Stmt", "fields": [["xs", ["union", ["list", ["ref", "Skip"]], ["ref", "Skip"]]], ["k", ["bool"]]]},
+            {"name": "Tagged", "parent": "Stmt", "fields": [["t", ["union", ["tuple", ["ann", ["int"], ["IntRange", 0, 3]], ["ref", "Skip"]], ["ref", "Skip"]]]]},
         ],
         "start": "Stmt",
     }
